@@ -427,6 +427,9 @@ def random_db(rng, **opts):
 
     pool = []
     taken = []
+    # region borders (0-based index of the LAST base of a region): variants placed exactly at a border exercise the
+    # "which region does this variant belong to" decisions of fusions / partial alleles on either strand
+    edges = [x for x in range(6, L - 8) if region_of(x) != region_of(x + 1)]
     nvar = _pick(rng, o["n_variants"])
     kinds, weights = zip(*o["kinds"].items())
     tries = 0
@@ -435,6 +438,9 @@ def random_db(rng, **opts):
         kind = rng.choices(kinds, weights)[0]
         n = 1 if kind == "sub" else rng.randint(2 if kind == "msub" else 1, max(2, o["max_len"]))
         pos = rng.randint(4, L - n - 4)
+        if edges and kind in ("ins", "sub", "del") and rng.random() < 0.3:
+            x = rng.choice(edges)
+            pos = min(L - n - 4, x + 1 if rng.random() < 0.6 else x + 2)   # written at the last / first base of a region
         ref = seq[pos - 1:pos - 1 + n]
         if kind == "sub":
             op = f"{ref}>{rng.choice([b for b in 'ACGT' if b != ref])}"
